@@ -118,6 +118,20 @@ class C11(C01):
             for k in range(n):
                 cases.append(("faultread %s %d %d %s" % (hexs(data), k, 1 if pw else 0, hexs(pw or b"")),
                               dict(k="r", scen=si, fault=k, n=n, ref=ref, impl_only=True)))
+        # ---- the streaming API over a failing source: visit() (files, then the metadata pass over the central directory)
+        # and read_zipfile_from_stream to the end
+        txt_ = b"The quick brown fox jumps over the lazy dog. " * 3
+        streamable = genzip.build([Entry(b"s", txt_), Entry(b"d", txt_, method=8), Entry(b"e", b""), Entry(b"dir/", b""), Entry(b"t", b"tail", comment=b"fc")], comment=b"cm")[0]
+        for si, (data, pw) in enumerate(self.reader_scenarios() + [(streamable, None)]):
+            if pw:
+                continue
+            for mode in (0, 1, 2):
+                ref = run_lines(exe, ["faultstream %s %d %d" % (hexs(data), 1 << 60, mode)], shards=1)[0]
+                if "Err" in ref:
+                    continue            # not streamable (data descriptors): nothing to compare with
+                n = int(_parse_obs(ref)[0][0])
+                for k in range(n):
+                    cases.append(("faultstream %s %d %d" % (hexs(data), k, mode), dict(k="r", scen=si, fault=k, n=n, ref=ref, impl_only=True)))
         # ---- open for append over a failing device
         for si, (data, pw) in enumerate(self.reader_scenarios()):
             if pw:
@@ -151,6 +165,13 @@ class C11(C01):
             return None        # only dropped: the failure cannot be reported (documented)
         if data != rdata:
             return "sink failure at call %d reported by no call, yet finish() returned different bytes" % meta["fault"]
+        return None
+
+    def finding_key(self, line, meta, why):
+        # D24: only the free function read_zipfile_from_stream with entries dropped unread (mode 2 of faultstream: every
+        # content read then happens inside ZipFile's Drop, which cannot report a failure), and only a swallowed failure
+        if line.startswith("faultstream ") and line.split()[-1] == "2" and "reported by no call" in why:
+            return "stream-entry-dropped-unread-skip-failure"
         return None
 
     def nontrivial(self, line, meta, out):
